@@ -877,7 +877,7 @@ func schedScenario(t *testing.T, x *explore.X) {
 
 func TestC14(t *testing.T) {
 	s := explore.NewSuite(t, "C14", "model_checking",
-		"(helpers) every predefined helper x every argument tuple of its alphabet (11 hosts incl. case variants, IPv4/IPv6 literals, unresolvable and multi-address names; 8 domains; 5 host-domain pairs; 18 glob patterns of literals . * ?; 7 dotted net/mask pairs; 11 CIDRs x 7 addresses; 9 address lists) with scripted DNS and interface addresses, compared with a reference evaluator; (helper-sequences) every sequence of 2 helper calls (quick and thorough; thorough adds every sequence of 3 resolver-consulting calls) out of the resolver-consulting helpers (dnsResolve, dnsResolveEx, isResolvable, isResolvableEx, isInNet over 7 hosts incl. dual-stack and IPv6-only names) and the pure string helpers (shExpMatch over 18 patterns incl. pairs where one looks like the regexp translation of the other, dnsDomainIs, localHostOrDomainIs on 3 hosts, sortIpAddressList) inside ONE evaluation and in consecutive evaluations of one resolver, each answer compared with the reference for that call alone (helpers are functions of their arguments); (result) 14 return expressions x 6 entry-point shapes; (trees) every decision tree if(c1){if([!]c2) L1; L2} L3 over 8 conditions and 4 leaves (quick: leaves fixed per position) evaluated on 10 hosts; (lists) every result list of <= 2 (quick) / 3 (thorough) entries from 22 well-formed and malformed entries (incl. ports 1, 65534, 65535, 65536) through pac.Proxies.All/First/URL; (pool) after 0-2 earlier evaluations (successful, throwing, non-string result), 2-3 concurrent FindProxyForURL callers through ProxyResolverPool, each blocked inside dnsResolve, released in EVERY order (states = release histories), answers compared with the sequential ones; (pool-interleavings) sync.Pool of pool.go replaced at build time by a deterministic shim, 2-3 scheduler threads x 1-2 rounds, every interleaving of Get / evaluate / dnsResolve / Put with at most 2 (quick) / 3 (thorough) preemptions")
+		"(helpers) every predefined helper x every argument tuple of its alphabet (11 hosts incl. case variants, IPv4/IPv6 literals, unresolvable and multi-address names; 8 domains; 5 host-domain pairs; 18 glob patterns of literals . * ?; 7 dotted net/mask pairs; 11 CIDRs x 7 addresses; 9 address lists) with scripted DNS and interface addresses, compared with a reference evaluator; (helper-sequences) every sequence of 2 helper calls (quick and thorough; thorough adds every sequence of 3 resolver-consulting calls) out of the resolver-consulting helpers (dnsResolve, dnsResolveEx, isResolvable, isResolvableEx, isInNet over 7 hosts incl. dual-stack and IPv6-only names) and the pure string helpers (shExpMatch over 18 patterns incl. pairs where one looks like the regexp translation of the other, dnsDomainIs, localHostOrDomainIs on 3 hosts, sortIpAddressList) inside ONE evaluation and in consecutive evaluations of one resolver, each answer compared with the reference for that call alone (helpers are functions of their arguments); (result) 14 return expressions x 6 entry-point shapes; (trees) every decision tree if(c1){if([!]c2) L1; L2} L3 over 8 conditions and 4 leaves (quick: leaves fixed per position) evaluated on 10 hosts; (lists) every result list of <= 2 (quick) / 3 (thorough) entries from 22 well-formed and malformed entries (incl. ports 1, 65534, 65535, 65536) through pac.Proxies.All/First/URL; (pool) after 0-2 earlier evaluations (successful, throwing, non-string result), 2-3 concurrent FindProxyForURL callers through ProxyResolverPool, each blocked inside dnsResolve, released in EVERY order (states = release histories), answers compared with the sequential ones; (pool-interleavings) sync.Pool of pool.go replaced at build time by a deterministic shim, 2-3 scheduler threads x 1-2 rounds, every interleaving of Get / evaluate / dnsResolve / Put with at most 2 (quick) / 3 (thorough) preemptions; (script-overrides-a-helper, round 9) scripts that declare a function under the name of a predefined helper (6 helpers, as function and as variable) evaluated 1-3 times through the pool and through a plain resolver: every evaluation uses the script's definition")
 	s.Assume = []string{"reference helper semantics: Netscape PAC text / Mozilla ascii_pac_utils.js / Chromium on the domain where they agree (see DESIGN.md)", "goja executes the JavaScript; the harness scripts DNS through the package's testingLookupIP seam"}
 	s.Add(explore.Scenario{Name: "helpers", Run: helperScenario})
 	s.Add(explore.Scenario{Name: "my-ip", Run: myIPScenario})
